@@ -26,7 +26,7 @@ class Check(PropertyCheck):
     rule = ("frame sequences over {DATA(frmNum 0..7, reTx 0/1, ackNum), ACK, NAK, RST, RSTACK(code), ERROR(code)} from every "
             "expected-number state 0..7 (reached by real traffic): exhaustive up to a length bound, plus long random sequences "
             "crossing the modulo-8 wrap; delivered through frame_received and, for a share of the cases, as wire bytes through "
-            "data_received; non-trivial = contains a DATA frame; distinct by (start state, entry point, sequence)")
+            "data_received, also while a DATA frame of the host itself awaits its acknowledgement (pairs of frames in one read); non-trivial = contains a DATA frame; distinct by (start state, entry point, sequence)")
     assumptions = ["transport open (a closing transport makes _write_frame raise; outside the property)"]
 
     def build_cases(self, tier, rng):
@@ -40,6 +40,15 @@ class Check(PropertyCheck):
         if tier == "quick":
             for _ in range(3000):
                 cases.append((rng.randrange(8), "frames", [rng.choice(A) for _ in range(3)]))
+        # a busy host: every pair (and, in thorough, triple) of frames in one read while a DATA frame of the host awaits its
+        # acknowledgement -- the acknowledgement numbers the frames carry meet a pending, then an already settled future
+        Ab = [("ACK", 0, 0, a) for a in (0, 1, 2)] + [("NAK", 0, 0, a) for a in (0, 1)] \
+            + [("DATA", f, r, a, bytes([0x50 + f])) for f in range(8) for r in (0, 1) for a in (0, 1, 2)]
+        for s0 in (range(8) if tier != "quick" else (0, 3, 7)):
+            for pair in itertools.product(Ab, repeat=2):
+                if tier == "quick" and rng.random() < 0.8:
+                    continue
+                cases.append((s0, "busy", list(pair)))
         for i in range(300 if tier == "quick" else 3000):
             n = rng.randrange(20, 120)
             seq = []
@@ -64,8 +73,31 @@ class Check(PropertyCheck):
             cases.append((0, "bytes" if i % 2 else "frames", seq))
         return cases
 
+    def run_busy(self, s, seq):
+        """the host has a DATA frame of its own in flight (its acknowledgement future is pending) while the peer's frames --
+        which carry acknowledgement numbers -- arrive in ONE read, i.e. before the sending coroutine runs again"""
+        import c05
+        d = c05.Driver()
+        try:
+            for k in range(s):
+                d.proto.frame_received(to_impl_frame(("DATA", k, 0, 0, b"")))
+            d.submit(0, b"zz")
+            del d.rec.log[:]
+            d.mark = 0
+            try:
+                d.proto.data_received(b"".join(ashref.wire(fr) for fr in seq))
+            except BaseException as e:  # noqa
+                return {"crash": repr(e), "events": []}
+            d.loop.settle()
+            evs = [e for e in ashrun.rx_events(d.rec.log) if e[0] in ("ack", "nak", "cnak", "up", "reset")]
+            return {"events": [list(e) for e in evs], "rx_seq": d.proto._rx_seq}
+        finally:
+            d.close()
+
     def run_impl(self, case):
         s, entry, seq = case
+        if entry == "busy":
+            return self.run_busy(s, seq)
         p, rec = ashrun.new_protocol()
         try:
             for k in range(s):     # reach the start state by real in-sequence traffic
